@@ -50,6 +50,40 @@ def queries(tier):
                                     expect_fail=[r"memcpy (source|destination) region"],
                                     params={"kernel": "ws_read_cb header complete", "role": "server" if server else "client",
                                             "length_form": ["7-bit", "16-bit", "64-bit"][lclass], "mask_bit": masked, "opcode_field": op}))
+    # HTTP request / response heads: template x symbolic byte window x symbolic cut point
+    HENV = ENV
+    REQ = ["GET /a HTTP/1.1\r\nK: v\r\n\r\n", "GET /a HTTP/1.1\nA:b\n\nZ", "PUT /x HTTP/1.0\r\nAb:  c d \t\r\nE:\r\n\r\n", "A /b HTTP/2\r\nK: v\r\nL: w\r\n\r\n"]
+    RES = ["HTTP/1.1 200 OK\r\nK: v\r\n\r\n", "HTTP/1.0 404 Not here\nA:b\n\nZ", "HTTP/2 99 x\r\n\r\n"]
+    def http(kind, ti, t, k, extra=None, nm=""):
+        d = {"TPL": ti, "NSYM": 0, "K": k}
+        if kind == "res":
+            d["RES"] = 1
+        d.update(extra or {})
+        return Query("http-%s-t%d-k%d%s" % (kind, ti, k, nm), "c16/httpmsg.c",
+                     tus=["core/list.c"], env=HENV, defs=d, unwind=45, timeout=300, mem_gb=4, allow_pruned=True, group="c16/httpmsg.c#loop",
+                     params={"parser": "nni_http_%s_parse" % kind, "stream": t, "cut_at": k,
+                             "what": "whole stream == first k bytes then the unconsumed rest (resumption state of the parse loop); line structure concrete"})
+    for kind, tpls in (("req", REQ), ("res", RES)):
+        for ti, t in enumerate(tpls):
+            L = len(t.encode().decode("unicode_escape"))
+            step = 1 if tier != "quick" else (2 if ti < 1 else 3)
+            for k in range(0, L + 1, step):
+                qs.append(http(kind, ti, t, k))
+    def kern(name, d, what):
+        return Query("http-" + name, "c16/httpmsg.c", tus=["core/list.c"], env=HENV, defs=d, unwind=16, timeout=600, mem_gb=6, allow_pruned=True,
+                     group="c16/httpmsg.c#k%d" % d["KERNEL"], params={"kernel": what, "line_bytes": d["LL"], "bytes": "all symbolic" + (" (supported version concrete)" if len(d) > 2 else "")})
+    for ll in ((3, 6) if tier == "quick" else (1, 2, 3, 4, 5, 6, 7, 8)):
+        qs.append(kern("scanline-n%d" % ll, {"KERNEL": 1, "LL": ll}, "http_scan_line"))
+    for ll in ((6,) if tier == "quick" else (4, 6, 8)):
+        qs.append(kern("reqline-n%d" % ll, {"KERNEL": 2, "LL": ll}, "http_req_parse_line"))
+    for ll in ((10,) if tier == "quick" else (9, 10, 11, 12)):
+        qs.append(kern("reqline-n%d-version" % ll, {"KERNEL": 2, "LL": ll, "FIXREQ": 1}, "http_req_parse_line"))
+    for ll in ((8,) if tier == "quick" else (5, 8, 10)):
+        qs.append(kern("resline-n%d" % ll, {"KERNEL": 3, "LL": ll}, "http_res_parse_line"))
+    for ll in ((12, 13) if tier == "quick" else (11, 12, 13, 14)):
+        qs.append(kern("resline-n%d-version" % ll, {"KERNEL": 3, "LL": ll, "FIXRES": 1}, "http_res_parse_line"))
+    for ll in ((5, 7) if tier == "quick" else (3, 4, 5, 6, 7, 8, 9)):
+        qs.append(kern("header-n%d" % ll, {"KERNEL": 4, "LL": ll}, "http_parse_header"))
     return qs
 
 MANIFEST = {
